@@ -760,6 +760,24 @@ def unusual_signatures(cx):
                 "function with a positional-only parameter was not called with the given values", case)
         h.nontrivial(("posonly", as_pos))
 
+    # signature defaults that are strings which *read* as another member of the declared type: "bound ... or else to the signature default"
+    from typing import Optional as _O, Union as _U
+    ns = {"CALLS": CALLS, "__name__": __name__, "Optional": _O, "Union": _U}
+    exec("def fdef(u: Union[int, str] = '5', o: Optional[str] = 'null', w: Union[bool, str] = 'true', s: str = '5', n: int = 3):\n"
+         "    CALLS.append(('fdef', {'u': u, 'o': o, 'w': w, 's': s, 'n': n}, None))\n    return 'ret'", ns)
+    want = {"u": "5", "o": "null", "w": "true", "s": "5", "n": 3}
+    for argv in ([], ["--n=4"]):
+        del CALLS[:]
+        res = outcome(auto_cli, ns["fdef"], args=argv)
+        exp = dict(want, n=4 if argv else 3)
+        got = CALLS[-1][1] if CALLS else None
+        case = {"component": "def fdef(u: Union[int, str] = '5', o: Optional[str] = 'null', w: Union[bool, str] = 'true', s: str = '5', n: int = 3)", "argv": argv, "outcome": res, "calls": [(c[0], c[1]) for c in CALLS]}
+        cx.accepted += 1
+        bad = sorted(k for k in exp if got is None or type(got.get(k)) is not type(exp[k]) or got.get(k) != exp[k])
+        h.check(res[0] == "ok" and not bad, f"c12:default-reinterpreted:{','.join(bad) or (res[1] if res[0] == 'exc' else res[0])}",
+                f"omitted parameters must be bound to their signature defaults {exp}, the callee saw {got}", case)
+        h.nontrivial(("string-defaults", tuple(argv)))
+
 
 if __name__ == "__main__":
     main()
